@@ -8,6 +8,8 @@ set_option linter.unusedSimpArgs false
 namespace SigModel.Lemmas.C11
 open SigModel.Conc
 
+variable {d : Bool}
+
 /-- concurrent state `c` and sequential state `a` agree on the flush history and on the stores' counters;
 `a` is between rotations -/
 structure Rel (c a : St) : Prop where
@@ -22,30 +24,30 @@ theorem rel_refl_init : Rel init init := by
 
 /-- four uninterrupted `rot i` labels from an idle store with blocks: the whole rotation -/
 theorem rot4 (a : St) (i : Nat) (h0 : (a.store i).todo = []) (hn : (a.store i).nblocks ≠ 0) :
-    let a4 := run Cfg.real a (List.replicate 4 (Label.rot i))
+    let a4 := run (Cfg.of d) a (List.replicate 4 (Label.rot i))
     a4.total = a.total ∧ a4.segs = a.segs ∧
     (∀ j, (a4.store j).seq = if j = i then (a.store i).seq + 1 else (a.store j).seq) ∧
     (∀ j, (a4.store j).nblocks = if j = i then 0 else (a.store j).nblocks) ∧
     (∀ j, (a4.store j).todo = if j = i then [] else (a.store j).todo) := by
   simp only [run, List.replicate, List.foldl_cons, List.foldl_nil, step]
   refine ⟨?_, ?_, ?_, ?_, ?_⟩
-  · simp [rotStep, h0, hn, Cfg.real, applyRot, upd]
-  · simp [rotStep, h0, hn, Cfg.real, applyRot, upd]
+  · simp [rotStep, h0, hn, Cfg.of, applyRot, upd]
+  · simp [rotStep, h0, hn, Cfg.of, applyRot, upd]
   · intro j
     by_cases hj : j = i
-    · subst hj; simp [rotStep, h0, hn, Cfg.real, applyRot, upd]
-    · simp [rotStep, h0, hn, Cfg.real, applyRot, upd, hj]
+    · subst hj; simp [rotStep, h0, hn, Cfg.of, applyRot, upd]
+    · simp [rotStep, h0, hn, Cfg.of, applyRot, upd, hj]
   · intro j
     by_cases hj : j = i
-    · subst hj; simp [rotStep, h0, hn, Cfg.real, applyRot, upd]
-    · simp [rotStep, h0, hn, Cfg.real, applyRot, upd, hj]
+    · subst hj; simp [rotStep, h0, hn, Cfg.of, applyRot, upd]
+    · simp [rotStep, h0, hn, Cfg.of, applyRot, upd, hj]
   · intro j
     by_cases hj : j = i
-    · subst hj; simp [rotStep, h0, hn, Cfg.real, applyRot, upd]
-    · simp [rotStep, h0, hn, Cfg.real, applyRot, upd, hj]
+    · subst hj; simp [rotStep, h0, hn, Cfg.of, applyRot, upd]
+    · simp [rotStep, h0, hn, Cfg.of, applyRot, upd, hj]
 
 theorem rel_step (c a : St) (hc : Inv c) (l : Label) (h : Rel c a) :
-    Rel (step Cfg.real c l) (run Cfg.real a (seqOf Cfg.real c [l])) := by
+    Rel (step (Cfg.of d) c l) (run (Cfg.of d) a (seqOf (Cfg.of d) c [l])) := by
   cases l with
   | flush i =>
     simp only [seqOf, List.append_nil, step]
@@ -81,7 +83,7 @@ theorem rel_step (c a : St) (hc : Inv c) (l : Label) (h : Rel c a) :
       simp only [h0, List.length_nil, run, rotStep]
       by_cases hn : (c.store i).nblocks = 0
       · simp [hn]; exact h
-      · simp only [hn, if_false, Cfg.real, applyRot]
+      · simp only [hn, if_false, Cfg.of, applyRot]
         simp
         constructor
         · exact h.total
@@ -126,8 +128,8 @@ theorem rel_step (c a : St) (hc : Inv c) (l : Label) (h : Rel c a) :
     · -- last step: the sequential schedule runs the whole rotation here
       have hcap := hc.cap i (by simp [h0])
       have hn : (a.store i).nblocks ≠ 0 := by rw [← h.nblocks i]; exact hcap.2.2
-      obtain ⟨r1, r2, r3, r4, r5⟩ := rot4 a i (h.idle i) hn
-      have hlen : Cfg.real.rotOrder.length = 4 := rfl
+      obtain ⟨r1, r2, r3, r4, r5⟩ := rot4 (d := d) a i (h.idle i) hn
+      have hlen : (Cfg.of d).rotOrder.length = 4 := rfl
       simp only [h0, List.length_cons, List.length_nil, Nat.zero_add, if_true, hlen]
       simp only [rotStep, h0, applyRot]
       constructor
@@ -149,16 +151,16 @@ theorem rel_step (c a : St) (hc : Inv c) (l : Label) (h : Rel c a) :
         · simp [hj]
         · simp [hj]; exact h.idle j
   | q j k =>
-    obtain ⟨qf, hq⟩ := qStep_frame Cfg.real c j k
+    obtain ⟨qf, hq⟩ := qStep_frame (Cfg.of d) c j k
     simp only [seqOf, List.append_nil, step, hq, run, List.foldl_nil]
     exact ⟨h.total, h.segs, h.seq, h.nblocks, h.idle⟩
 
 theorem seqOf_cons (c : St) (l : Label) (ls : List Label) :
-    seqOf Cfg.real c (l :: ls) = seqOf Cfg.real c [l] ++ seqOf Cfg.real (step Cfg.real c l) ls := by
+    seqOf (Cfg.of d) c (l :: ls) = seqOf (Cfg.of d) c [l] ++ seqOf (Cfg.of d) (step (Cfg.of d) c l) ls := by
   simp [seqOf]
 
 theorem rel_run (ls : List Label) (c a : St) (hc : Inv c) (ha : Inv a) (h : Rel c a) :
-    Rel (run Cfg.real c ls) (run Cfg.real a (seqOf Cfg.real c ls)) := by
+    Rel (run (Cfg.of d) c ls) (run (Cfg.of d) a (seqOf (Cfg.of d) c ls)) := by
   induction ls generalizing c a with
   | nil => simpa [run, seqOf] using h
   | cons l ls ih =>
